@@ -751,6 +751,17 @@ func (e *Env) builtin(name string, x *ast.CallExpr) (Val, bool) {
 	case "sameBacking":
 		a, b := e.eval(arg(0)), e.eval(arg(1))
 		return boolVal(eq(a.L[0], b.L[0])), true
+	case "offset":
+		// position of a slice's first element in its backing array
+		a := e.eval(arg(0))
+		if _, ok := a.Typ.Underlying().(*types.Slice); !ok {
+			e.fail("offset() wants a slice")
+		}
+		return Val{Typ: tInt, L: []T{a.L[1]}}, true
+	case "extends":
+		// extends(a, b): a is b grown in place (same array, same start, same end of capacity, at least as long)
+		a, b := e.eval(arg(0)), e.eval(arg(1))
+		return boolVal(and(eq(a.L[0], b.L[0]), eq(a.L[1], b.L[1]), ge(a.L[2], b.L[2]), eq(a.L[3], b.L[3]))), true
 	case "allocated":
 		v := e.eval(arg(0))
 		return boolVal(and(gt(v.L[0], "0"), le(v.L[0], e.st.top))), true
@@ -897,6 +908,8 @@ type ModLoc struct {
 	HasLeaf bool
 	// reference set: every element of a slice of references (x[*][*])
 	SetE, SetOff, SetLen T
+	HasRange   bool // elements RLo <= index < RHi of the row Ref (absolute indices)
+	RLo, RHi   T
 	Everything bool // `modifies everything`: no frame at all
 	Guard      T    // the location exists only if this holds ("" = always)
 	Except     []string // with Everything: heap key prefixes that are NOT modified
@@ -994,6 +1007,29 @@ func (e *Env) designator0(x ast.Expr) []ModLoc {
 		var out []ModLoc
 		for _, l := range leavesOf(t) {
 			out = append(out, ModLoc{Key: boxKey(t, l.Suffix), Sort: arr(sInt, l.Sort), Ref: p.one(), Leaf: l, HasLeaf: true})
+		}
+		return out
+	case *ast.SliceExpr:
+		// x[lo:hi]: the elements lo..hi-1 of the slice x, counted from its offset;
+		// hi may exceed len(x) (spare capacity written by append)
+		base := e.eval(x.X)
+		u, ok := base.Typ.Underlying().(*types.Slice)
+		if !ok || isStructType(u.Elem()) {
+			e.fail("x[lo:hi] designator wants a slice of scalars")
+		}
+		ne := *e
+		ne.guard = nil
+		lo, hi := T("0"), base.L[3]
+		if x.Low != nil {
+			lo = ne.evalInt(x.Low)
+		}
+		if x.High != nil {
+			hi = ne.evalInt(x.High)
+		}
+		var out []ModLoc
+		for _, l := range leavesOf(u.Elem()) {
+			out = append(out, ModLoc{Key: elemKey(u.Elem(), l.Suffix), Sort: arr(sInt, arr(sInt, l.Sort)), Ref: base.L[0], Leaf: l, HasLeaf: true,
+				HasRange: true, RLo: add(base.L[1], lo), RHi: add(base.L[1], hi)})
 		}
 		return out
 	case *ast.IndexExpr:
